@@ -138,3 +138,57 @@ func vSortedCopy(a []string) []string {
 	sort.Strings(b)
 	return b
 }
+
+// vDigestDeep = vDigest plus, for every schema and enum of the catalog, the data the
+// JSON emitter hands to encoding/json (catalog.VSchemaDigest / VRuleDigest, in
+// harness/catalog/zz_verif_deep.go): content tree with types, scalar values, notes,
+// rules, inheritance, used user types and enums.
+func vDigestDeep(c *JApiCore) []string {
+	out := vDigest(c)
+	cat := c.catalog
+	add := func(parts ...string) { out = append(out, strings.Join(parts, " ")) }
+	_ = cat.UserTypes.Each(func(k string, v *catalog.UserType) error {
+		add("deep type", k, strconv.Quote(v.Description), catalog.VSchemaDigest(v.Schema))
+		return nil
+	})
+	_ = cat.UserEnums.Each(func(k string, v *catalog.UserRule) error {
+		add("deep enum", k, strconv.Quote(v.Description), catalog.VRuleDigest(v.Value))
+		return nil
+	})
+	_ = cat.Interactions.Each(func(k catalog.InteractionID, v catalog.Interaction) error {
+		switch in := v.(type) {
+		case *catalog.HTTPInteraction:
+			if in.PathVariables != nil {
+				add("deep pathvars", k.String(), catalog.VSchemaDigest(in.PathVariables.Schema))
+			}
+			if in.Query != nil {
+				add("deep query", k.String(), catalog.VSchemaDigest(in.Query.Schema))
+			}
+			if in.Request != nil {
+				if in.Request.HTTPRequestHeaders != nil {
+					add("deep request-headers", k.String(), catalog.VSchemaDigest(in.Request.HTTPRequestHeaders.Schema))
+				}
+				if in.Request.HTTPRequestBody != nil {
+					add("deep request-body", k.String(), catalog.VSchemaDigest(in.Request.HTTPRequestBody.Schema))
+				}
+			}
+			for _, r := range in.Responses {
+				if r.Headers != nil {
+					add("deep response-headers", k.String(), r.Code, catalog.VSchemaDigest(r.Headers.Schema))
+				}
+				if r.Body != nil {
+					add("deep response-body", k.String(), r.Code, catalog.VSchemaDigest(r.Body.Schema))
+				}
+			}
+		case *catalog.JsonRpcInteraction:
+			if in.Params != nil {
+				add("deep params", k.String(), catalog.VSchemaDigest(in.Params.Schema))
+			}
+			if in.Result != nil {
+				add("deep result", k.String(), catalog.VSchemaDigest(in.Result.Schema))
+			}
+		}
+		return nil
+	})
+	return out
+}
